@@ -7,5 +7,6 @@ import SpoxModel.Props.C14
 #print axioms C14.imports_cover_body
 #print axioms C14.imports_cover_model
 #print axioms C14.imports_attained
+#print axioms C14.imports_agree_with_model
 #print axioms C14.function_sem
 #print axioms C14.function_sem_rejects
